@@ -416,7 +416,67 @@ func TestReplay(t *testing.T) {
 	replaySpace(intZeroSpace(maxKey, desc), desc, cases, levels, out, st)
 	replaySpace(strSpace(maxKey, desc), desc, cases, levels, out, st)
 	replaySpace(lenSpace(maxKey, desc), desc, cases, levels, out, st)
+	tallNodes(intSpace(max(maxKey, 3), desc), desc, max(maxKey, 3), out, st)
+	tallNodes(strSpace(max(maxKey, 3), desc), desc, max(maxKey, 3), out, st)
 	out.Put(map[string]any{"t": "stats", "cases": st.Cases, "transitions": st.Transitions, "ops": st.Ops})
+}
+
+// ---------------------------------------------------------------------------- extreme heights
+
+// rawSource hands mkNode a chosen variate: 0 gives the tallest node the list can make, 1<<62 a node of height 1.
+type rawSource struct{ v int64 }
+
+func (s *rawSource) Int63() int64 { return s.v }
+func (s *rawSource) Seed(int64)   {}
+
+// tallNodes drives histories in which some nodes get the maximal height (the variate 0): results and the printed keys must
+// still be those of an ordered map (P level; the exact number of levels is the implementation's business).
+func tallNodes[K any](ks keyspace[K], desc bool, n int, out *vio.Out, st *stats) {
+	for pat := 0; pat < 1<<uint(min(n, 4)); pat++ {
+		var hist []op
+		func() {
+			defer func() {
+				if r := recover(); r != nil {
+					out.Put(finding{T: "pviol", Space: ks.name, Hist: hist, Pred: "Panic", Want: "no panic", Got: fmt.Sprint(r)})
+				}
+			}()
+			src := &rawSource{}
+			l := skiplist.NewWithSource[K, int](ks.cmp, src)
+			ref := map[int]int{}
+			do := func(o op) {
+				hist = append(hist, o)
+				st.Ops++
+				switch o.Op {
+				case "put":
+					l.Put(ks.key(o.K), o.V)
+					ref[o.K] = o.V
+				case "remove":
+					if r := l.Remove(ks.key(o.K)); r != ref[o.K] {
+						out.Put(finding{T: "pviol", Space: ks.name, Hist: hist, Pred: "RemoveResult", Want: ref[o.K], Got: r})
+					}
+					delete(ref, o.K)
+				}
+				for k := 1; k <= n; k++ {
+					if r := l.Get(ks.key(k)); r != ref[k] {
+						out.Put(finding{T: "pviol", Space: ks.name, Hist: hist, Pred: "GetResult", Want: ref[k], Got: r})
+					}
+				}
+			}
+			for k := 1; k <= n; k++ {
+				src.v = 1 << 62
+				if pat&(1<<uint((k-1)%4)) != 0 {
+					src.v = 0 // the tallest possible node
+				}
+				do(op{Op: "put", K: (k*2)%n + 1, V: k})
+			}
+			do(op{Op: "remove", K: 1})
+			src.v = 0
+			do(op{Op: "put", K: 1, V: 9})
+			do(op{Op: "remove", K: 2})
+			do(op{Op: "remove", K: 1})
+			st.Cases++
+		}()
+	}
 }
 
 // ---------------------------------------------------------------------------- random (impl -> spec)
